@@ -17,6 +17,7 @@
 */
 
 #include "memwrapper.h"
+#include "verifhooks.h"
 #include <stdio.h>
 #include <stdlib.h>
 
@@ -27,6 +28,12 @@
 #include <unistd.h>
 #endif
 
+
+#ifdef LIBSCIENTIFIC_VERIF
+size_t libsci_verif_nprocs = 0;
+void (*libsci_verif_rng_hook)(int fn, uint32_t state_or_seed) = NULL;
+void (*libsci_verif_tick_hook)(int loop_id, size_t component, double conv) = NULL;
+#endif
 
 void *xmalloc(size_t size)
 {
@@ -90,5 +97,13 @@ void GetNProcessor(size_t *nprocs_online, size_t *nprocs_max)
   
   if(nprocs_max != NULL)
     (*nprocs_max) = 1
+  #endif
+  #ifdef LIBSCIENTIFIC_VERIF
+  if(libsci_verif_nprocs > 0){
+    if(nprocs_online != NULL)
+      (*nprocs_online) = libsci_verif_nprocs;
+    if(nprocs_max != NULL)
+      (*nprocs_max) = libsci_verif_nprocs;
+  }
   #endif
 }
